@@ -4,16 +4,15 @@
 //! is held poisons it, exactly as in the running outstation task: every later call panics too.
 use std::panic::{catch_unwind, AssertUnwindSafe};
 
-use crate::app::measurement::{AnalogInput, BinaryInput, Flags, Time};
+use crate::app::measurement::{
+    AnalogInput, AnalogOutputStatus, BinaryInput, BinaryOutputStatus, Counter, DoubleBit, DoubleBitBinaryInput, Flags,
+    FrozenCounter, OctetString, Time,
+};
 use crate::app::parse::options::ParseOptions;
 use crate::app::parse::parser::HeaderCollection;
 use crate::app::{FunctionCode, MaybeAsync, Timestamp};
 use crate::master::EventClasses;
-use crate::outstation::database::{
-    Add, AnalogInputConfig, BinaryInputConfig, ClassZeroConfig, DatabaseHandle, EventAnalogInputVariation,
-    EventBinaryInputVariation, EventBufferConfig, EventClass, StaticAnalogInputVariation,
-    StaticBinaryInputVariation, Update, UpdateInfo, UpdateOptions,
-};
+use crate::outstation::database::*;
 use crate::outstation::{BufferState, OutstationApplication};
 use scursor::WriteCursor;
 
@@ -46,10 +45,108 @@ pub struct ClearResult {
     /// number of `event_cleared` callbacks that preceded `end_confirm`
     pub cleared_before_end: usize,
     pub classes: (usize, usize, usize),
-    /// remaining (binary input, analog input) events
-    pub types: (usize, usize),
-    /// sum of the six other per-type counts (must stay 0: those types are never configured)
-    pub other_types: usize,
+    /// remaining events per type, in the order of `enum Event`
+    pub types: [usize; 8],
+}
+
+fn class_of(c: u8) -> Option<EventClass> {
+    match c {
+        1 => Some(EventClass::Class1),
+        2 => Some(EventClass::Class2),
+        3 => Some(EventClass::Class3),
+        _ => None,
+    }
+}
+
+pub fn info_str(info: UpdateInfo) -> String {
+    match info {
+        UpdateInfo::NoPoint => "nopoint".to_string(),
+        UpdateInfo::NoEvent => "noevent".to_string(),
+        UpdateInfo::Created(id) => format!("created {id}"),
+        UpdateInfo::Overflow { created, discarded } => format!("overflow {created} {discarded}"),
+    }
+}
+
+/// `Database::add` (public transaction API) of type number `ty` (order of `enum Event`: binary, double-bit,
+/// binary output status, counter, frozen counter, analog, analog output status, octet string) with the
+/// configured static / event variation NUMBERS and the dead-band (counters: u32; analogs: the integer as
+/// f64; the other types have none).  `None` = the type has no such variation.
+pub fn add_typed_db(db: &mut Database, ty: u8, index: u16, class: u8, svar: u8, evar: u8, deadband: u32) -> Option<bool> {
+    let cls = class_of(class);
+    macro_rules! var {
+        ($n:expr, $($k:literal => $v:expr),+) => {
+            match $n { $($k => $v,)+ _ => return None }
+        };
+    }
+    Some(match ty {
+        0 => db.add(index, cls, BinaryInputConfig::new(
+            var!(svar, 1 => StaticBinaryInputVariation::Group1Var1, 2 => StaticBinaryInputVariation::Group1Var2),
+            var!(evar, 1 => EventBinaryInputVariation::Group2Var1, 2 => EventBinaryInputVariation::Group2Var2, 3 => EventBinaryInputVariation::Group2Var3),
+        )),
+        1 => db.add(index, cls, DoubleBitBinaryInputConfig::new(
+            var!(svar, 1 => StaticDoubleBitBinaryInputVariation::Group3Var1, 2 => StaticDoubleBitBinaryInputVariation::Group3Var2),
+            var!(evar, 1 => EventDoubleBitBinaryInputVariation::Group4Var1, 2 => EventDoubleBitBinaryInputVariation::Group4Var2, 3 => EventDoubleBitBinaryInputVariation::Group4Var3),
+        )),
+        2 => db.add(index, cls, BinaryOutputStatusConfig::new(
+            var!(svar, 1 => StaticBinaryOutputStatusVariation::Group10Var1, 2 => StaticBinaryOutputStatusVariation::Group10Var2),
+            var!(evar, 1 => EventBinaryOutputStatusVariation::Group11Var1, 2 => EventBinaryOutputStatusVariation::Group11Var2),
+        )),
+        3 => db.add(index, cls, CounterConfig::new(
+            var!(svar, 1 => StaticCounterVariation::Group20Var1, 2 => StaticCounterVariation::Group20Var2, 5 => StaticCounterVariation::Group20Var5, 6 => StaticCounterVariation::Group20Var6),
+            var!(evar, 1 => EventCounterVariation::Group22Var1, 2 => EventCounterVariation::Group22Var2, 5 => EventCounterVariation::Group22Var5, 6 => EventCounterVariation::Group22Var6),
+            deadband,
+        )),
+        4 => db.add(index, cls, FrozenCounterConfig::new(
+            var!(svar, 1 => StaticFrozenCounterVariation::Group21Var1, 2 => StaticFrozenCounterVariation::Group21Var2, 5 => StaticFrozenCounterVariation::Group21Var5, 6 => StaticFrozenCounterVariation::Group21Var6, 9 => StaticFrozenCounterVariation::Group21Var9, 10 => StaticFrozenCounterVariation::Group21Var10),
+            var!(evar, 1 => EventFrozenCounterVariation::Group23Var1, 2 => EventFrozenCounterVariation::Group23Var2, 5 => EventFrozenCounterVariation::Group23Var5, 6 => EventFrozenCounterVariation::Group23Var6),
+            deadband,
+        )),
+        5 => db.add(index, cls, AnalogInputConfig::new(
+            var!(svar, 1 => StaticAnalogInputVariation::Group30Var1, 2 => StaticAnalogInputVariation::Group30Var2, 3 => StaticAnalogInputVariation::Group30Var3, 4 => StaticAnalogInputVariation::Group30Var4, 5 => StaticAnalogInputVariation::Group30Var5, 6 => StaticAnalogInputVariation::Group30Var6),
+            var!(evar, 1 => EventAnalogInputVariation::Group32Var1, 2 => EventAnalogInputVariation::Group32Var2, 3 => EventAnalogInputVariation::Group32Var3, 4 => EventAnalogInputVariation::Group32Var4, 5 => EventAnalogInputVariation::Group32Var5, 6 => EventAnalogInputVariation::Group32Var6, 7 => EventAnalogInputVariation::Group32Var7, 8 => EventAnalogInputVariation::Group32Var8),
+            deadband as f64,
+        )),
+        6 => db.add(index, cls, AnalogOutputStatusConfig::new(
+            var!(svar, 1 => StaticAnalogOutputStatusVariation::Group40Var1, 2 => StaticAnalogOutputStatusVariation::Group40Var2, 3 => StaticAnalogOutputStatusVariation::Group40Var3, 4 => StaticAnalogOutputStatusVariation::Group40Var4),
+            var!(evar, 1 => EventAnalogOutputStatusVariation::Group42Var1, 2 => EventAnalogOutputStatusVariation::Group42Var2, 3 => EventAnalogOutputStatusVariation::Group42Var3, 4 => EventAnalogOutputStatusVariation::Group42Var4, 5 => EventAnalogOutputStatusVariation::Group42Var5, 6 => EventAnalogOutputStatusVariation::Group42Var6, 7 => EventAnalogOutputStatusVariation::Group42Var7, 8 => EventAnalogOutputStatusVariation::Group42Var8),
+            deadband as f64,
+        )),
+        7 => db.add(index, cls, OctetStringConfig),
+        _ => return None,
+    })
+}
+
+/// `update2(.., options)` of type number `ty`; `value`: bool (!= 0), double bit
+/// (`value & 3` as `DoubleBit::to_byte`), u32, or the integer carried as f64; `octets`: an octet string's
+/// content; time = `Synchronized(Timestamp::new(time))`.  `None` = no such type / the library refuses to
+/// construct the octet string.
+pub fn update_typed_db(db: &mut Database, ty: u8, index: u16, value: i64, octets: &[u8], flags: u8, time: u64, opts: u8) -> Option<UpdateInfo> {
+    let t = Time::Synchronized(Timestamp::new(time));
+    let flags = Flags::new(flags);
+    // options number: 0..2 = Detect / Force / Suppress, +3 = update_static false (0 = `detect_event()`)
+    let mode = match opts % 3 {
+        0 => EventMode::Detect,
+        1 => EventMode::Force,
+        _ => EventMode::Suppress,
+    };
+    let opt = if opts % 6 == 0 { UpdateOptions::detect_event() } else { UpdateOptions::new(opts % 6 < 3, mode) };
+    let db2 = |v: i64| match v & 3 {
+        0 => DoubleBit::Intermediate,
+        1 => DoubleBit::DeterminedOff,
+        2 => DoubleBit::DeterminedOn,
+        _ => DoubleBit::Indeterminate,
+    };
+    Some(match ty {
+        0 => db.update2(index, &BinaryInput::new(value != 0, flags, t), opt),
+        1 => db.update2(index, &DoubleBitBinaryInput::new(db2(value), flags, t), opt),
+        2 => db.update2(index, &BinaryOutputStatus::new(value != 0, flags, t), opt),
+        3 => db.update2(index, &Counter::new(value as u32, flags, t), opt),
+        4 => db.update2(index, &FrozenCounter::new(value as u32, flags, t), opt),
+        5 => db.update2(index, &AnalogInput::new(value as f64, flags, t), opt),
+        6 => db.update2(index, &AnalogOutputStatus::new(value as f64, flags, t), opt),
+        7 => db.update2(index, &OctetString::new(octets).ok()?, opt),
+        _ => return None,
+    })
 }
 
 pub struct DbProbe {
@@ -72,64 +169,42 @@ impl DbProbe {
         }
     }
 
-    fn class(c: u8) -> Option<EventClass> {
-        match c {
-            1 => Some(EventClass::Class1),
-            2 => Some(EventClass::Class2),
-            3 => Some(EventClass::Class3),
-            _ => None,
+    /// per-type maxima in the order of `enum Event` (binary, double-bit, binary output status, counter,
+    /// frozen counter, analog, analog output status, octet string); class-zero mask bit i = type i
+    pub fn new_cfg(ev: [u16; 8], class_zero: u8, max_read_selection: Option<u16>) -> Self {
+        let evc = EventBufferConfig::new(ev[0], ev[1], ev[2], ev[3], ev[4], ev[5], ev[6], ev[7]);
+        let b = |i: u8| class_zero & (1 << i) != 0;
+        let cz = ClassZeroConfig::new(b(0), b(1), b(2), b(3), b(4), b(5), b(6), b(7));
+        Self {
+            handle: DatabaseHandle::new(max_read_selection, cz, evc),
         }
     }
 
-    /// `Database::add` through the public transaction API (static g1v2 / g30v1, events g2v1 / g32v1, deadband 0)
-    pub fn add(&mut self, analog: bool, index: u16, class: u8) -> Result<bool, ()> {
-        let cls = Self::class(class);
-        guard(|| {
-            self.handle.transaction(|db| {
-                if analog {
-                    db.add(
-                        index,
-                        cls,
-                        AnalogInputConfig {
-                            s_var: StaticAnalogInputVariation::Group30Var1,
-                            e_var: EventAnalogInputVariation::Group32Var1,
-                            deadband: 0.0,
-                        },
-                    )
-                } else {
-                    db.add(
-                        index,
-                        cls,
-                        BinaryInputConfig {
-                            s_var: StaticBinaryInputVariation::Group1Var2,
-                            e_var: EventBinaryInputVariation::Group2Var1,
-                        },
-                    )
+    /// `Database::add` of type number `ty` with configured static / event variation numbers
+    /// (`None` = a variation number the type does not have: nothing is done); dead-band 0
+    pub fn add_typed(&mut self, ty: u8, index: u16, class: u8, svar: u8, evar: u8, deadband: u32) -> Option<Result<bool, ()>> {
+        let mut known = true;
+        let r = guard(|| {
+            self.handle.transaction(|db| match add_typed_db(db, ty, index, class, svar, evar, deadband) {
+                Some(b) => b,
+                None => {
+                    known = false;
+                    false
                 }
             })
-        })
+        });
+        if known { Some(r) } else { None }
     }
 
-    /// `update2(.., UpdateOptions::detect_event())` through the public transaction API;
-    /// time = `Some(Time::Synchronized(Timestamp::new(time)))`
-    pub fn update(&mut self, analog: bool, index: u16, value: i64, flags: u8, time: u64) -> Result<String, ()> {
-        let t = Time::Synchronized(Timestamp::new(time));
-        let flags = Flags::new(flags);
-        guard(|| {
-            let info = self.handle.transaction(|db| {
-                if analog {
-                    db.update2(index, &AnalogInput::new(value as f64, flags, t), UpdateOptions::detect_event())
-                } else {
-                    db.update2(index, &BinaryInput::new(value != 0, flags, t), UpdateOptions::detect_event())
-                }
-            });
-            match info {
-                UpdateInfo::NoPoint => "nopoint".to_string(),
-                UpdateInfo::NoEvent => "noevent".to_string(),
-                UpdateInfo::Created(id) => format!("created {id}"),
-                UpdateInfo::Overflow { created, discarded } => format!("overflow {created} {discarded}"),
-            }
-        })
+    /// `update2(.., UpdateOptions::detect_event())` of type number `ty` (see `update_typed_db`)
+    pub fn update_typed(&mut self, ty: u8, index: u16, value: i64, octets: &[u8], flags: u8, time: u64, opts: u8) -> Option<Result<String, ()>> {
+        if ty > 7 || (ty == 7 && octets.len() > 255) {
+            return None;
+        }
+        Some(guard(|| {
+            let info = self.handle.transaction(|db| update_typed_db(db, ty, index, value, octets, flags, time, opts).unwrap());
+            info_str(info)
+        }))
     }
 
     /// the object-header octets of a READ request, parsed by the real parser
@@ -188,13 +263,16 @@ impl DbProbe {
                 end_confirms: app.end.len(),
                 cleared_before_end: pos,
                 classes: (state.classes.num_class_1, state.classes.num_class_2, state.classes.num_class_3),
-                types: (state.types.num_binary_input, state.types.num_analog),
-                other_types: state.types.num_double_bit_binary_input
-                    + state.types.num_binary_output_status
-                    + state.types.num_counter
-                    + state.types.num_frozen_counter
-                    + state.types.num_analog_output_status
-                    + state.types.num_octet_string,
+                types: [
+                    state.types.num_binary_input,
+                    state.types.num_double_bit_binary_input,
+                    state.types.num_binary_output_status,
+                    state.types.num_counter,
+                    state.types.num_frozen_counter,
+                    state.types.num_analog,
+                    state.types.num_analog_output_status,
+                    state.types.num_octet_string,
+                ],
             }
         })
     }
